@@ -20,7 +20,8 @@ DS_WORD = {"d": (False, False, False), "a": (True, True, False), "t": (True, Fal
            # the operator presses "disable" in those modes)
            "e": (False, True, False), "f": (False, False, True)}
 EFFECTIVE = {"d": "d", "a": "a", "t": "t", "x": "x", "e": "d", "f": "d"}
-BATON_TIMEOUT = 60.0
+BATON_TIMEOUT = 45.0
+NUDGE_AFTER = 8.0
 
 
 class Boom(Exception):
@@ -38,6 +39,7 @@ class _G:
     poisoned = False
     lives = 0
     pokes = 0
+    nudged_lives = 0
 
 
 def cb(site, obj=None, extra=None):
@@ -240,8 +242,8 @@ def run_life(lay, history, fms=False, faults=None, hooks=(), fbvalue=None, obser
     import wpilib.simulation as ws
     from wpilib.simulation import DriverStationSim as DS
 
-    if _G.poisoned:
-        raise core.HarnessError("worker poisoned by an earlier hang")
+    if _G.poisoned or _G.nudged_lives >= 3:
+        raise core.WorkerPoisoned(None)
     install()
     _G.lives += 1
     _G.log = []
@@ -293,6 +295,7 @@ def run_life(lay, history, fms=False, faults=None, hooks=(), fbvalue=None, obser
             # between the waiter's time check and its condition wait can be missed.  Re-issuing the wake-up
             # (a zero-length step: the clock does not move) is harmless and closes that window.
             waited = 0.0
+            nudges = 0
             while waited < BATON_TIMEOUT:
                 try:
                     return _G.evq.get(timeout=0.2)
@@ -300,6 +303,16 @@ def run_life(lay, history, fms=False, faults=None, hooks=(), fbvalue=None, obser
                     waited += 0.2
                     hs.stepTimingAsync(0)
                     _G.pokes += 1
+                    if waited >= NUDGE_AFTER + nudges * 2.0 and nudges < 8:
+                        # The robot thread is silent for many seconds: maybe it sleeps until a later instant than the
+                        # alarm the harness saw.  Move the clock on (to the programmed alarm if there is one in the
+                        # future, else by one period).  A healthy loop never gets here; for a broken one this turns a
+                        # dead wait into an observable timing difference.
+                        nowt = wpilib.RobotController.getFPGATime()
+                        al = hs.getNextNotifierTimeout()
+                        hs.stepTimingAsync(al - nowt if al > nowt else lay["p_us"])
+                        nudges += 1
+                        life.extra["nudges"] = life.extra.get("nudges", 0) + 1
             return ("hang", None)
 
         inst = ntcore.NetworkTableInstance.getDefault()
@@ -374,10 +387,20 @@ def run_life(lay, history, fms=False, faults=None, hooks=(), fbvalue=None, obser
         g.clear()
         if not _G.poisoned:
             reset_world()
+    if life.extra.get("nudges"):
+        _G.nudged_lives += 1
     if life.hang:
-        # An unresponsive robot thread cannot be told apart from an overloaded machine with certainty, and the stuck
-        # thread makes this process unusable: report it as a harness failure (exit 2), never as a VIOLATION.
-        raise core.HarnessError(f"robot thread unresponsive for {BATON_TIMEOUT:.0f} s (layout {lay['name']}, history {history!r}, faults {faults}); see /tmp/verif-hang-{os.getpid()}.txt")
+        # The robot thread neither reached its next NotifierDelay.wait() nor ended although the harness re-issued the
+        # wake-up every 0.2 s for BATON_TIMEOUT seconds and then moved the clock on by several more periods: the
+        # control loop has stopped iterating.  The stuck thread makes this process unusable, so the violation travels
+        # in the exception and the remaining work of this process is skipped (recorded as a cap).
+        mode = life.steps[-1]["mode"] if life.steps else "?"
+        tail = [r[0] for r in life.log[-6:]]
+        raise core.WorkerPoisoned(dict(
+            sig=f"loop-stopped-iterating:{mode}",
+            msg=f"layout {lay['name']}, history {history!r}, faults {faults}: the robot thread stopped responding in step {len(life.steps) - 1} (mode {mode}); last callbacks {tail}",
+            replay=dict(engine="robot", layout=lay, history=history, fms=fms, faults=faults or {}, hang=True),
+        ))
     return life
 
 
